@@ -219,6 +219,10 @@ class Q:
         return Q.of(o) * self.recip()
 
     def __pow__(self, k):
+        if isinstance(k, (float, np.floating)) and float(k) == int(k):
+            k = int(k)
+        if isinstance(k, (float, np.floating)) and float(k) == 0.5:
+            return self.sqrt()
         if isinstance(k, (int, np.integer)) and -6 <= k <= 6:
             base = self if k >= 0 else self.recip()
             r = Q(z3.RealVal(1))
@@ -277,7 +281,41 @@ class Q:
         return Q(core.uf_app("log", self.sym().t))
 
     def sqrt(self):
+        r = self._exact_sqrt()
+        if r is not None:
+            return r
         return Q(self.sym().sqrt().t)
+
+    def _exact_sqrt(self):
+        """sqrt of a structurally perfect square (every factor an even number of times)."""
+        import math
+        c = self.c
+        if c < 0:
+            return None
+        if c == 0:
+            return Q(c=Fraction(0), nf=[], df=[])
+        rn, rd = math.isqrt(c.numerator), math.isqrt(c.denominator)
+        if rn * rn != c.numerator or rd * rd != c.denominator:
+            return None
+
+        def half(fs):
+            fs = list(fs)
+            out = []
+            while fs:
+                f = fs.pop()
+                for k, g in enumerate(fs):
+                    if f.eq(g):
+                        del fs[k]
+                        out.append(f)
+                        break
+                else:
+                    return None
+            return out
+        hn, hd = half(self.nf), half(self.df)
+        if hn is None or hd is None:
+            return None
+        r = Q(c=Fraction(rn, rd), nf=hn, df=hd)
+        return abs(r)
 
     def sym(self):
         """plain Sym with a z3 division term."""
